@@ -1,6 +1,7 @@
 --------------------------- MODULE C11_ItemsTrace ---------------------------
 (* T-specification for C11.  Events come from the real item machinery (harness/drivers/c11.py):                      *)
-(*  kind "item" : what items.parse_item made of an item description (TLC-generated candidate definitions, seeded      *)
+(*  kind "item" : what items.parse_item made of an item description (TLC-generated candidate definitions and HISTORIES  *)
+(*                of definitions in one theory, seeded                                                              *)
 (*                random ones, generated datatypes / functions / predicates, every item of the library files):      *)
 (*                error, whether the generated extension could be installed, the PARSED definition (codec),         *)
 (*                the generated constants / theorems, the declared types and arities after installation             *)
@@ -8,7 +9,8 @@
 (* Clauses                                                                                                          *)
 (*   SyntacticOK : accepted as a definition (no error, extension installed)  =>  the PARSED equation satisfies the  *)
 (*                 statement's literal conditions (C11_Def!SyntacticOK) - the violation clause                      *)
-(*   NewConst    : ... and the constant was not already declared (unless overloadable)                              *)
+(*   NewConst    : an accepted definitional item (def / def.ind / def.pred) introduces a NEW constant: the name was  *)
+(*                 not declared, or it is overloadable and the instance type overlaps no earlier instance           *)
 (*   ExtOK       : every generated theorem / constant of an installed item is well-typed over the extended signature *)
 (*   RoundTrip   : before = after                                                                                    *)
 (*   SPEC_Conservative : accepted /\ SyntacticOK /\ examinable /\ ~Conservative: the two readings disagree - an error *)
@@ -25,7 +27,10 @@ Accepted(e) == e.error = "" /\ e.installed
 PD(e) == LET p == e.parsed.prop lhs == Arg1(p) IN [name |-> e.parsed.name, T |-> e.parsed.T, args |-> ArgsOf(lhs), rhs |-> Arg(p)]
 ShapeOK(e) == IsEq(e.parsed.prop) /\ HeadOf(Arg1(e.parsed.prop)) = <<"const", e.parsed.name, e.parsed.T>>
 ParsedOK(e) == ShapeOK(e) /\ SyntacticOK(PD(e))
-NewConstOK(e) == ~e.declared_before.known \/ e.declared_before.ov
+\* the constant introduced by a definitional item (def / def.ind / def.pred) is NEW: the name was not declared, or it is
+\* overloadable and the type does not OVERLAP any type at which the name has been introduced by an earlier item of the theory
+NewConstOK(e) == /\ ~e.declared_before.known \/ e.declared_before.ov
+                 /\ \A i \in 1..Len(e.prior_insts) : ~Overlaps(e.prior_insts[i], e.newconst.T)
 \* ExtOK
 Sq(j) == { j.h[i] : i \in 1..Len(j.h) } \cup {j.c}
 ExtOK(e) == /\ \A i \in 1..Len(e.ext_thms) : \A t \in Sq(e.ext_thms[i]) : PropOK(t, e.csig, e.tsig)
@@ -40,18 +45,20 @@ DefV(e) == LET shape == ShapeOK(e)
                cons == cj /\ Conservative(PD(e), NM)
            IN [ok |-> ok, new |-> NewConstOK(e), judged |-> cj, cons |-> cons,
                conds |-> IF shape THEN FailedConds(PD(e)) ELSE {"shape"}]
-DefClauses(v) == (IF ~v.ok THEN {"SyntacticOK"} ELSE {}) \cup (IF ~v.new THEN {"NewConst"} ELSE {})
+DefClauses(v) == (IF ~v.ok THEN {"SyntacticOK"} ELSE {})
                  \cup (IF v.ok /\ v.new /\ v.judged /\ ~v.cons THEN {"SPEC_Conservative"} ELSE {})
 \* information for the verdict file: which conditions fail, and the semantic witness
 DefInfo(e, v) == [tid |-> e.tid, conds |-> v.conds, conservative |-> IF v.judged THEN (IF v.cons THEN "yes" ELSE "NO") ELSE "not evaluated"]
-ItemClauses(e) == IF ~IsItem(e) \/ ~Accepted(e) THEN {} ELSE (IF ExtOK(e) THEN {} ELSE {"ExtOK"})
+ItemClauses(e) == IF ~IsItem(e) \/ ~Accepted(e) THEN {}
+                  ELSE (IF ExtOK(e) THEN {} ELSE {"ExtOK"}) \cup (IF e.isdefn /\ ~NewConstOK(e) THEN {"NewConst"} ELSE {})
 RtClauses(e) == IF e.before = e.after THEN {} ELSE {"RoundTrip_" \o e.route}
 Nontrivial(e) == IsRt(e) \/ (IsItem(e) /\ Accepted(e))
 Diverges(e) == IsItem(e) /\ \/ (e.error = "" /\ ~e.installed)
                             \/ (e.src = "vec" /\ e.error # "" /\ e.cand.sok /\ e.cand.newname /\ e.cand.wf)
+                            \/ (e.src = "hist" /\ e.cand.accept # Accepted(e))       \* the reference machine decides this step of the history differently
 TNext == l <= Len(Trace) /\ LET e == Trace[l] IN
          IF IsRt(e) THEN TStep(e.tid, RtClauses(e), TRUE, FALSE)
-         ELSE IF DefAccepted(e) THEN LET v == DefV(e) IN TStepInfo(e.tid, ItemClauses(e) \cup DefClauses(v), TRUE, FALSE, DefInfo(e, v))
+         ELSE IF DefAccepted(e) THEN LET v == DefV(e) IN TStepInfo(e.tid, ItemClauses(e) \cup DefClauses(v), TRUE, Diverges(e), DefInfo(e, v))
          ELSE TStep(e.tid, ItemClauses(e), Nontrivial(e), Diverges(e))
 TSpec == TInit /\ [][TNext]_l
 =============================================================================
